@@ -88,7 +88,8 @@ theorem C02_lines_310 (T : OpTable) (fv : List PStr) (code table : List Nat) (fl
 /-- **… and for `co_lnotab` (3.7-3.9).** -/
 theorem C02_lines_lnotab (v : Ver) (hv : v.is310 = false) (T : OpTable) (fv : List PStr) (code table : List Nat) (fln : Int) (raws : List RawI)
     (st st' : DecSt) (ois : List (Nat × Instr))
-    (heven : table.length % 2 = 0) (hbytes : ∀ x ∈ table, x < 256) (hbc : ∀ x ∈ LT.bytesToItems table, x.bc % 2 = 0)
+    (heven : table.length % 2 = 0) (hbytes : ∀ x ∈ table, x < 256)
+    (hbc : ∀ cs, LT.collapse false (LT.bytesToItems table) = some cs → ∀ c ∈ cs, c.bc % 2 = 0)
     (hp : parseBytes code = .ok raws) :
     ∃ lm, LT.toLineMapping false table code.length = .ok lm ∧
       (st.lm = shifted lm fln → decodeInstrs v T fv st raws = .ok (st', ois) →
